@@ -233,10 +233,15 @@ func c04Main(args []string) {
 		dtxt := c.dataText(doc.p, doc.d)
 		dpath := c.dataPath(doc.p, doc.d)
 		sum := c04Doc{Profile: pr.ID, Data: pr.Data[doc.d].Path, Len: len(dtxt), Injected: map[string]int{}, Unreadable: map[string]int{}, Absorbed: map[string]int{}}
+		tc := time.Now()
 		handle, cerr := pkg.CompileProfile(ptxt, false, nil)
 		if cerr != nil {
 			continue // profile fixtures that do not compile have no verdict to protect
 		}
+		// the text entry points compile the profile on every call: for profiles that are slow to compile
+		// they are used on every 12th test only (the compiled entry points on all of them)
+		slowProfile := time.Since(tc) > 200*time.Millisecond
+		nTests := 0
 		// fault-free run first: it must give the fixture's normal outcome (no error)
 		ff := callEntry("ValidateCompiled", handle, ptxt, dtxt)
 		sum.FaultFree = ff.key()
@@ -293,7 +298,11 @@ func c04Main(args []string) {
 				f.Write(append(meta, '\n'))
 				f.Close()
 			}
+			nTests++
 			for _, e := range entries {
+				if slowProfile && !strings.HasPrefix(e, "ValidateCompiled") && nTests%12 != 1 {
+					continue
+				}
 				sum.Calls++
 				if c04Trace {
 					// only on the re-run of a shard whose process died: say what is about to be called
